@@ -18,6 +18,7 @@ void vp_c17_sym_datetime(QDateTime *out);                                    // 
 unsigned vp_c17_unknown();                                                   // number of QXmppElement(QDomElement) constructions = elements that fell through to "unknown extension"
 void vp_c17_unknown_reset();
 void vp_c17_phase();                                                         // forget cbmc dead/deallocated bookkeeping (see c17_models.c)
+unsigned vp_c17_type();                                                      // message type of this instance (-DVP_C17_TYPE=0..4: error, normal, chat, groupchat, headline; default chat)
 bool vp_c17_kf_d12();                                                        // known finding d12_jmi_callinvite listed (-DKF_d12_jmi_callinvite)
 }
 
@@ -97,6 +98,7 @@ static void c17_base(QXmppMessage &m)
     vp_c17_phase();
     m.setId(c17Str(1));
     m.setTo(c17Str(1));
+    m.setType(QXmppMessage::Type(vp_c17_type()));   // structural case of the instance; value-dependent serialization must not depend on it
 }
 static void c17_serialize(const QXmppMessage &m, C17Trees &t)
 {
@@ -146,6 +148,7 @@ static void c17_roundtrip(const C17Trees &t, QXmppMessage &r)
     r.parse(t.sens, QXmpp::SceSensitive);
     vp_c17_phase();
     vp_assert(vp_c17_unknown() == 0, "C17 (iii) every element of each part is recognised when that part is parsed in its own mode");
+    vp_assert(unsigned(r.type()) == vp_c17_type(), "C17 (iii) message type restored");
 }
 
 #define FIELD(name, part, nel, tag, ns)                                                  \
@@ -486,6 +489,42 @@ FIELD_D12(jmi, u"propose", ns_jingle_message_initiation, set_jmi_, same_jmi, "Ji
 FIELD_D12(call_invite, u"invite", ns_call_invites, set_call_invite_, same_call_invite, "call invite element")
 
 
+// ================= core text elements x message type =================
+// The serializer must not make the placement of body / subject / thread depend on their VALUES or on the message type (e.g. a
+// groupchat message with a subject but no body = room subject change): VP_CASE bit 0 body, bit 1 subject, bit 2 thread,
+// bit 3 parent thread present (exact-length strings, absent = empty), bit 4 a stanza error is set; VP_C17_TYPE = message type.
+extern "C" void h_text()
+{
+    const bool hasBody = vp_case_bool(0), hasSubject = vp_case_bool(1), hasThread = vp_case_bool(2), hasParent = vp_case_bool(3), hasError = vp_case_bool(4);
+    QXmppMessage m;
+    c17_base(m);
+    if (hasBody) { m.setBody(S1); }
+    if (hasSubject) { m.setSubject(S1); }
+    if (hasThread) { m.setThread(S1); }
+    if (hasParent) { m.setParentThread(S1); }
+    if (hasError) { m.setError(QXmppStanza::Error(QXmppStanza::Error::Cancel, QXmppStanza::Error::ItemNotFound)); }
+    C17Trees t;
+    c17_serialize(m, t);
+    const unsigned nText = (hasBody ? 1 : 0) + (hasSubject ? 1 : 0) + (hasThread ? 1 : 0), nErr = hasError ? 1 : 0;   // a parent thread without thread is not serialized
+    unsigned np = vp_c17_nch(&t.pub), nsn = vp_c17_nch(&t.sens), na = vp_c17_nch(&t.all);
+    vp_assert(np == nErr, "C17 (i) public part: no body, subject or thread, whatever the message type and whichever of them are empty (a stanza error is routing data of every part)");
+    vp_assert(nsn == nErr + nText, "C17 (ii) sensitive part: exactly the non-empty body / subject / thread");
+    vp_assert(na == nErr + nText, "C17 (ii) unsplit message: every element once");
+    vp_assert(vp_c17_children_equal(&t.all, &t.sens), "C17 (ii) elements of the sensitive part are those of the unsplit message");
+    bool clean = true;
+    for (unsigned i = 0; i < 2; i++) {
+        QDomElement c;
+        vp_c17_child(&t.pub, i, &c);
+        clean = clean && (c.isNull() || c.tagName() == u"error");
+    }
+    vp_assert(clean, "C17 (i) public part: nothing but the stanza error");
+    QXmppMessage r;
+    c17_roundtrip(t, r);
+    vp_assert(r.body() == m.body() && r.subject() == m.subject() && r.thread() == m.thread() && r.e2eeFallbackBody().isEmpty(), "C17 (iii) body / subject / thread restored from the sensitive part");
+    vp_assert(hasThread ? r.parentThread() == m.parentThread() : true, "C17 (iii) parent thread restored");
+    vp_assert(hasError ? (r.error().type() == QXmppStanza::Error::Cancel && r.error().condition() == QXmppStanza::Error::ItemNotFound) : true, "C17 (iii) stanza error restored");
+}
+
 // ================= composite instances =================
 #define C17_NPUB_ALLSET 13   // fallback body, private, 4 hints, 2 stanza ids, origin id, mix, encryption, fallback marker, addresses
 #define C17_NSENS_ALLSET 25  // 23 sensitive elements + fallback marker + addresses (toXml only)
@@ -607,6 +646,7 @@ extern "C" void h_allset()
     bool kf = vp_c17_kf_d12();
     vp_assert(kf || vp_c17_unknown() == 0, "C17 (iii) every element of each part is recognised when that part is parsed in its own mode");
     chk_all(m, r, true, !kf);
+    vp_assert(unsigned(r.type()) == vp_c17_type(), "C17 (iii) message type restored");
     vp_assert(r.fallbackMarkers().size() == 2, "C17 fallback marker read from both parts");
 }
 // the unsplit message parsed in SceAll mode
